@@ -105,6 +105,13 @@ def rand_key(r):
     return rand_string(r)
 
 
+class NoEscape(random.Random):
+    """an emit() randomiser that always writes characters raw (UTF-8), never as \\uXXXX escapes"""
+
+    def randrange(self, *a, **k):
+        return 1 if a == (2,) else super().randrange(*a, **k)
+
+
 class Raw(str):
     """number spelled exactly as given"""
 
@@ -204,6 +211,22 @@ def input_direction(ctx, res):
             v = [rand_value(r, 2) for _ in range(40)]
         docs.append((i, v, random.Random(r.getrandbits(32))))
 
+    # large documents (past the sizes at which readers switch to chunked reads: 4 KiB, 8 KiB, 64 KiB), full of multi-byte
+    # characters, at every alignment of those characters against the chunk boundaries; mostly on stdin
+    big = [("stdin", 5000), ("stdin", 8192), ("stdin", 16384), ("stdin", 24000), ("stdin", 65536), ("stdin", 70000), ("-i", 9000), ("-i", 70000), ("two -i", 20000)]
+    if ctx["tier"] != "quick":
+        big += [("stdin", n) for n in (4096, 12000, 32768, 131072, 300000, 1000000)] + [("-i", 100000), ("two -i", 100000)]
+    base_i = 3 * (ndocs // 3 + 1)
+    k = 0
+    for mode_name, size in big:
+        for shift in range(5):
+            unit = r.choice(["é", "日本語", "😀", "é日😀", "\u00a0ß→𝄞"])
+            body = unit * (size // len(unit.encode("utf-8")) + 1)
+            keyed = r.randrange(2) == 0
+            v = ["p" * shift, body, ("obj", [(unit * 3, body[: 50 + shift])])] if keyed else ["p" * shift, body]
+            docs.append((base_i + 3 * k + ["-i", "stdin", "two -i"].index(mode_name), v, NoEscape(r.getrandbits(32))))
+            k += 1
+
     def one(item):
         i, v, rr = item
         text_v = emit(v, rr)
@@ -222,7 +245,7 @@ def input_direction(ctx, res):
         nleaves = text_v.count(",") + 1
         if rr_["timeout"]:
             return out, 1, nleaves
-        case = {"mode": ["-i", "stdin", "two -i"][mode], "document": text_v[:600]}
+        case = {"mode": ["-i", "stdin", "two -i"][mode], "document": text_v[:600], "document_bytes": len(text_v.encode("utf-8", "surrogatepass"))}
         if rr_["rc"] != 0:
             out.append({"sig": "input-rejected", "what": "a valid JSON document is rejected as input", "case": dict(case, stderr=rr_["err"].decode("utf-8", "replace")[-300:])})
             return out, 1, nleaves
